@@ -354,8 +354,13 @@ def scenario(args):
             w.op_commit()
         elif tmpl == "merge_squash":
             w.git("switch", "-q", "-c", "feature")
+            t0 = len(w.trace)
             for k in range(r.range(1, 3)):
                 ai_commit(w, r, ["c d.py", "src/b.rs"], region="bottom", kinds=KINDS_SLOW, owned=True)
+            # a person rewriting lines in place on the branch (next to / over the target's AI lines): the squash carries
+            # the TARGET side's attributions onto the merged content by diff, so such a line can keep the old AI credit
+            # (same root cause as known class C02-K3, here on the squash path)
+            info["k3_files"] = sorted({t[2] for t in w.trace[t0:] if t[0] == "edit" and t[1] == "H" and t[3] in ("rep", "mod")})
             w.git("switch", "-q", "main")
             upstream_commit(w, r, ["a.txt"])
             w.git("merge", "--squash", "feature")
@@ -380,7 +385,9 @@ def scenario(args):
                               "before": sorted(pre[1]), "after": sorted(w.pending_snapshot())})
         inv, lost = w.check_head()
         ninv, malformed = w.check_notes_sound()
-        if inv and not (w.tainted and tmpl.endswith("_inert")):
+        if inv and info.get("k3_files") and all(x["path"] in info["k3_files"] and x["truth"] == "H" for x in inv):
+            info["known_k3_squash"] = True
+        elif inv and not (w.tainted and tmpl.endswith("_inert")):
             fails.append({"what": "invented attribution (blame)", "detail": inv[:3]})
         if lost and not w.tainted:
             fails.append({"what": "lost attribution", "detail": lost[:3]})
